@@ -35,6 +35,8 @@ def plans(tier):
         # (conformance only: the PlusCal model has no clear; TraceJobQueue has - its Lin places the clear between call and return)
         ((('add', 1), ('add', 2), ('add', 3)), (('clear', 0), ('add', 4))),
         ((('add', 1), ('insert', 2)), (('clear', 0),), (('insert', 3),)),
+        # short enough for every single pre-emption to be tried (a clear between the controller's length test and its pop)
+        ((('add', 1),), (('clear', 0),)),
     ]
     if tier == 'thorough':
         out += [
@@ -196,8 +198,9 @@ def run(report, replay=None):
     for pi, plan in enumerate(plan_list):
         jobs = sorted({j for ops in plan for _, j in ops if j})
         behaviours = [{}, {jobs[0]: 'raise'}, {j: 'raise' for j in jobs}]
+        short = sum(len(ops) for ops in plan) <= 2
         for behaviour in behaviours[:3 if tier == 'thorough' else 2]:
-            tasks.append((plan, behaviour, 'dfs-lines-k1', dfs_budget, 0))
+            tasks.append((plan, behaviour, 'dfs-lines-k1', max(dfs_budget, 300) if short else dfs_budget, 0))
             tasks.append((plan, behaviour, 'dfs-ops-k2', dfs_budget, 0))
         tasks.append((plan, None, 'random-lines', walks, rng.randrange(2 ** 30)))
     import multiprocessing
